@@ -1748,3 +1748,18 @@ def _target_id_class(repo, ob, failure):
 
 GENERATORS.insert(0, ("C18.carry.classes", _target_id_class))
 GENERATORS.insert(0, ("C18.carry.target_id", _target_id_class))
+
+
+def _single_axis_reuse(repo, ob, failure):
+    """x alone (or y alone) on a reuse keeps the template's position on the other axis"""
+    import re as _re
+    for doc, pat, want in [('<svg><specs><rect id="t" cxy="5" wh="4"/></specs><reuse href="#t" x="10"/></svg>', r'<rect [^>]*>', 'x="10" y="3"'),
+                           ('<svg><specs><circle id="c" cxy="5" r="2"/></specs><reuse href="#c" y="10"/></svg>', r'<circle [^>]*>', 'cx="5" cy="12"')]:
+        r = run_svgdx(repo, doc, args=("--no-auto-styles",))
+        m = _re.search(pat, r["out"])
+        if r["rc"] == 0 and m and want not in m.group(0):
+            return {"input": doc, "args": ["--no-auto-styles"], "observed": m.group(0), "expected": "... %s ..." % want}
+    return None
+
+
+GENERATORS.insert(0, ("C18.place.unpositioned", _single_axis_reuse))
